@@ -15,6 +15,8 @@ namespace AIToolbox::Factored::Bandit {
 
             size_t agent;
             size_t agentAction;
+            // Actions of the agent being eliminated for which no rule applied.
+            std::vector<size_t> unmentionedActions;
             MOVE::Factor newFactor;
             MOVE::Factor newCrossSum;
             MOVE::Factor newFactorCrossSum;
@@ -34,7 +36,7 @@ namespace AIToolbox::Factored::Bandit {
 
     MOVE::Results MOVE::operator()(const Action & A, GVE::Graph & graph) {
         GVE gve;
-        Global global{A, {}, 0, 0, {}, {}, {}};
+        Global global{A, {}, 0, 0, {}, {}, {}, {}};
 
         gve(A, graph, global);
 
@@ -78,6 +80,7 @@ namespace AIToolbox::Factored::Bandit {
 
     void Global::initNewFactor() {
         newFactor.clear();
+        unmentionedActions.clear();
     }
 
     void Global::beginCrossSum(size_t currAction) {
@@ -149,11 +152,23 @@ namespace AIToolbox::Factored::Bandit {
                 std::make_move_iterator(std::begin(newCrossSum)),
                 std::make_move_iterator(std::end(newCrossSum))
             );
+        } else {
+            unmentionedActions.push_back(agentAction);
         }
     }
 
     bool Global::isValidNewFactor() {
         // p2.prune(&newFactor);
+
+        // An action that no rule mentions is worth zero (as in
+        // VariableElimination), and must compete with the mentioned ones. If
+        // no action is mentioned the agent does not matter here, and we emit
+        // nothing as before.
+        if (newFactor.size() > 0) {
+            const Rewards zero = Rewards::Zero(newFactor[0].vals.size());
+            for (const auto a : unmentionedActions)
+                newFactor.push_back(MOVE::Entry{zero, PartialAction{{agent}, {a}}});
+        }
 
         return newFactor.size() > 0;
     }
